@@ -187,6 +187,46 @@ var vC05AggPairs = [][2]string{
 	{"select strlen(value) as l, sum(int(value)) as s where l > 0 group by l order by s desc", "select strlen(value) as l, sum(int(value)) as s where strlen(value) > 0 group by l order by s desc"},
 	{"select key, int(value) as v where v >= 0 order by v desc, key", "select key, int(value) as v where int(value) >= 0 order by v desc, key"},
 	{"select int(value) as v, avg(v * 2) where v != 1 group by v", "select int(value) as v, avg(int(value) * 2) where int(value) != 1 group by v"},
+	// the bare name next to an aggregate is evaluated when the group is completed
+	{"select int(value) as n, sum(n) + n as t where n > 0 group by n", "select int(value) as n, sum(int(value)) + int(value) as t where int(value) > 0 group by n"},
+	{"select strlen(value) as l, count(1) * l, max(l) - l where l > 0 group by l", "select strlen(value) as l, count(1) * strlen(value), max(strlen(value)) - strlen(value) where strlen(value) > 0 group by l"},
+}
+
+// statements that give one name to two different fields: refused, or the cache switch is invisible
+var vC05DupStmts = []string{
+	"select int(value) as n, key as n where n > 0",
+	"select key as f, value as f where f != ''",
+	"select upper(value) as u, lower(value) as u, u + 'x' where u != 'zz'",
+	"select key, value as KEY where key >= ''",
+}
+
+func VN_C05_DUP(tier int) int { return len(vC05DupStmts) }
+
+func VH_C05_DUP(si, n, B, mode int) {
+	ks := make([][]byte, n)
+	vs := make([][]byte, n)
+	for i := 0; i < n; i++ {
+		ks[i] = []byte{byte('a' + i)}
+		vs[i] = vNondetBytes("v"+vItoa(i), 1, 1, "012a")
+	}
+	st := vNewStoreFrom(ks, vs)
+	PlanBatchSize = B
+	q := vC05DupStmts[si]
+	EnableFieldCache = true
+	ra, _, err := vRun(q, st, mode == 1, n)
+	if err != nil {
+		vCover("refused")
+		return
+	}
+	EnableFieldCache = false
+	rc, _, err2 := vRun(q, st, mode == 1, n)
+	EnableFieldCache = true
+	vAssert(err2 == nil, "C05/cache-switch-changes-acceptance")
+	vAssert((ra.err == nil) == (rc.err == nil), "C05/cache-switch-changes-the-result")
+	if ra.err == nil {
+		vAssert(vSameRows(ra.rows, rc.rows), "C05/cache-switch-changes-the-result")
+	}
+	vCover("compared")
 }
 
 func VN_C05_AGG(tier int) int { return len(vC05AggPairs) }
